@@ -87,6 +87,9 @@ func c04(e *Env) {
 	// ---- R8 every created task can get its slots (shared with C07.R1 / C05.R9): a task that waits forever for
 	// the rest of its tokens is never executed
 	e.slotMutexSpansLoop("R8")
+	// ---- R9 items are forwarded in input order (shared with C08.R2): pairing in multi-port consumers, and hence
+	// the produced files, must not depend on which task finishes first
+	e.headOnlyRule("R9")
 }
 
 func recvName(fn *ssa.Function) string {
